@@ -46,6 +46,7 @@ func TestC01(t *testing.T) {
 	var tot stress.Stats
 	// deadline-driven cancellation in virtual time, with server latency; the bubble also detects leaked/hung goroutines
 	nb := run.N(6, 60)
+	drv.BubbleLimit = 20 * time.Minute // a history lasts well under a virtual minute: a wedged one is ended after 20 virtual minutes
 	for i := 0; i < nb; i++ {
 		cfg := stress.Config{Name: fmt.Sprintf("bubble-%d", i), Queue: []string{"flowbuffer", "ring"}[i%2], Multiplex: i%3%2 - 1, RingScale: []int{1 + i%3, 10}[i%2], Always: i%4 == 1,
 			Callers: 6, Ops: 40, CancelPct: 40, Deadline: true, Seed: run.Seed*1000 + int64(i), Latency: true}
@@ -57,8 +58,9 @@ func TestC01(t *testing.T) {
 		add(&tot, st)
 		run.Observe("bubble_runs", 1)
 	}
-	// real-time runs under the race detector: schedule diversity (a hang here can only end in the outer watchdog,
-	// which is why the virtual-time runs with their deadlock detector come first)
+	drv.BubbleLimit = 72 * time.Hour
+	// real-time runs under the race detector: schedule diversity (a wedged run is recognised by stress.Run's frozen-state
+	// inspection; the virtual-time runs with their deadlock detector come first all the same)
 	for _, cfg := range configs(run) {
 		st := stress.Run(run, cfg, false)
 		run.Sample(map[string]any{"config": cfg.String(), "stats": fmt.Sprintf("%+v", st)})
